@@ -854,9 +854,41 @@ fn gen_foreign_unit(t: &mut Tape) -> Lit {
     Lit { text: format!("{}{}{}", tp, count, unit), expect: Expect::Reject("no such duration unit".into()), family: "malformed", class: "duration.foreign-unit".into(), embed: Embed::Init }
 }
 
+/// a well-formed numeric literal in which ONE digit is a decimal digit of another script (Arabic-Indic,
+/// Devanagari, fullwidth ...) or a digit-like character: IEC 61131-3 digits are 0..9, so there is no
+/// such literal - reading the text with that digit dropped or converted would be a wrong value
+fn gen_foreign_digit(t: &mut Tape) -> Lit {
+    let base = *t.pick(&[
+        "13", "-27", "4_52", "+305", "WORD#13", "INT#13", "DINT#-452", "BYTE#255", "T#13.5s", "T#1h13m", "TIME#250ms", "TOD#12:30:05", "TIME_OF_DAY#23:59:59.25",
+        "D#2024-11-05", "DATE#1999-12-31", "DT#2024-11-25-12:00:00", "16#1F", "2#1011", "8#17", "1.53", "1.5E13", "2.0e-12", "REAL#10.25",
+    ]);
+    let digits: Vec<usize> = base.char_indices().filter(|(_, c)| c.is_ascii_digit()).map(|(i, _)| i).collect();
+    let at = digits[t.below(digits.len())];
+    let v = base.as_bytes()[at] - b'0';
+    let foreign: char = match t.below(7) {
+        0 => char::from_u32(0x0660 + v as u32).unwrap(), // Arabic-Indic
+        1 => char::from_u32(0x0966 + v as u32).unwrap(), // Devanagari
+        2 => char::from_u32(0xFF10 + v as u32).unwrap(), // fullwidth
+        3 => char::from_u32(0x06F0 + v as u32).unwrap(), // extended Arabic-Indic
+        4 => char::from_u32(0x1D7CE + v as u32).unwrap(), // mathematical bold
+        5 => *t.pick(&['\u{b2}', '\u{b9}', '\u{2460}', '\u{bd}']), // superscripts, circled one, one half
+        _ => char::from_u32(0x0E50 + v as u32).unwrap(), // Thai
+    };
+    let text = if t.ratio(1, 3) {
+        // inserted next to the digit instead of replacing it
+        format!("{}{}{}", &base[..at + 1], foreign, &base[at + 1..])
+    } else {
+        format!("{}{}{}", &base[..at], foreign, &base[at + 1..])
+    };
+    Lit { text, expect: Expect::Reject("a digit of another script is no digit of IEC 61131-3".into()), family: "malformed", class: "number.foreign-digit".into(), embed: Embed::Init }
+}
+
 pub fn gen_literal(t: &mut Tape, g: &Gates) -> Lit {
     if t.ratio(1, 8) {
         return gen_integer_position(t);
+    }
+    if t.ratio(1, 40) && g.want("MALFORMED_LITERAL") {
+        return gen_foreign_digit(t);
     }
     if t.ratio(1, 25) && g.want("MALFORMED_LITERAL") {
         return gen_foreign_unit(t);
